@@ -2,7 +2,7 @@
    observable visible state of a screen; the diff of two observationally equal
    screens (in particular of a screen against itself) is empty; state_* is
    contents_* followed by input_mode_*. *)
-Require Import Tac ListN Utf8 Attrs Cell Row Grid Screen Term Emit RowInv GridInv TextInv ScreenInv EmitSafe SgrSpec.
+Require Import Tac ListN Utf8 Attrs Cell Row Grid Screen Term Emit RowInv GridInv TextInv ScreenInv EmitSafe SgrSpec CellWf.
 Open Scope N_scope.
 
 (* ------------------------------------------------------------------ *)
@@ -287,12 +287,37 @@ Qed.
 Lemma zip_self_cons {A} (x : A) l : zip (x :: l) (x :: l) = (x, x) :: zip l l.
 Proof. reflexivity. Qed.
 
-Lemma rows_diff_loop_self cols : forall vr i wrapping pos a acc,
+(* after the D10 repair the rows loop looks at column cols-2 of each pair of rows: a wide cell of
+   prev there without contents in the current row switches the previous-wrap carry off.  For a row
+   against itself that needs a wide cell without contents, which no well-formed cell is. *)
+Definition wide_full_row (r : row) : Prop := Forall (fun c => cwide c = true -> has_contents c = true) (cells r).
+
+Lemma row_wf_wide_full r : row_wf r -> wide_full_row r.
+Proof. intros W. eapply Forall_impl'; [|exact W]. intros c Wc Hw. now apply wf_wide_has_contents. Qed.
+
+Lemma clears_wrap_self cols rw : wide_full_row rw -> clears_wrap cols rw rw = false.
+Proof.
+  intros W. unfold clears_wrap, row_get. destruct (get (cells rw) (cols - 2)) as [c|] eqn:G.
+  - destruct (cwide c) eqn:Ew; [|now rewrite andb_false_r].
+    rewrite (Forall_get _ _ _ _ W G Ew). cbn [negb]. apply andb_false_r.
+  - now rewrite andb_false_r.
+Qed.
+
+Lemma rows_diff_loop_self cols : forall vr i wrapping pos a acc, Forall wide_full_row vr ->
   rows_diff_loop cols (zip vr vr) i wrapping wrapping pos a acc = Ok (acc, pos, a).
 Proof.
-  induction vr as [|rw rest IH]; intros i wrapping [pr pc] a acc; [reflexivity|].
+  induction vr as [|rw rest IH]; intros i wrapping [pr pc] a acc F; [reflexivity|].
+  inversion F as [|? ? Frw Frest]; subst.
   rewrite zip_self_cons. cbn [rows_diff_loop]. rewrite row_diff_self. cbn [bind].
-  rewrite IH, app_nil_r. reflexivity.
+  rewrite (clears_wrap_self cols rw Frw). cbn [negb]. rewrite andb_true_r.
+  rewrite IH by exact Frest. rewrite app_nil_r. reflexivity.
+Qed.
+
+Lemma visible_rows_wide_full x vr : grid_wf x -> visible_rows x = Ok vr -> Forall wide_full_row vr.
+Proof.
+  intros [Wl Ws] E. unfold visible_rows in E. bind_inv E. inv E.
+  apply Forall_app; split; [apply Forall_firstnN, Forall_skipnN|apply Forall_firstnN];
+    (eapply Forall_impl'; [|eassumption]); intros r; apply row_wf_wide_full.
 Qed.
 
 Lemma rows_diff_rows_self start width : forall vr i,
@@ -328,10 +353,11 @@ Qed.
 
 (* grid level, for two grids with equal observable part *)
 Lemma grid_contents_diff_gobs x y vr pa : gobs_eq x y -> visible_rows y = Ok vr -> prow x <= POSMAX ->
+  Forall wide_full_row vr ->
   grid_contents_diff x y pa = Ok ([], pa).
 Proof.
-  intros [Hv Hc Hr Hp] Ev Hb. unfold grid_contents_diff. rewrite Hv, Ev. cbn [bind].
-  rewrite rows_diff_loop_self. cbn [bind]. rewrite <- Hr, <- Hp.
+  intros [Hv Hc Hr Hp] Ev Hb Hwf. unfold grid_contents_diff. rewrite Hv, Ev. cbn [bind].
+  rewrite rows_diff_loop_self by exact Hwf. cbn [bind]. rewrite <- Hr, <- Hp.
   rewrite cursor_position_formatted_same by exact Hb. cbn [bind]. reflexivity.
 Qed.
 
@@ -340,16 +366,20 @@ Proof. destruct m; reflexivity. Qed.
 Lemma t_mouse_enc_same m : t_mouse_enc m m = [].
 Proof. destruct m; reflexivity. Qed.
 
+Lemma cur_wf_obs s : screen_wf s -> grid_wf (cur s).
+Proof. intros [Wg Wa]. unfold cur. destruct (altmode s); assumption. Qed.
+
 (* observationally equal pairs; only the first screen's invariant is used (for
    the single checked addition prow + 1 of MoveFromTo) *)
-Theorem contents_diff_obs s1 s2 o : screen_ok s1 -> obs s1 = Ok o -> obs s2 = Ok o ->
+Theorem contents_diff_obs s1 s2 o : screen_ok s1 -> screen_wf s1 -> obs s1 = Ok o -> obs s2 = Ok o ->
   contents_diff_t s1 s2 = Ok [].
 Proof.
-  intros O1 H1 H2. pose proof (obs_gobs_eq _ _ _ H1 H2) as E.
+  intros O1 W1 H1 H2. pose proof (obs_gobs_eq _ _ _ H1 H2) as E.
   apply obs_inv in H1. apply obs_inv in H2.
-  destruct H1 as (_ & _ & _ & _ & _ & A6 & A7 & _). destruct H2 as (B1 & _ & _ & _ & _ & B6 & B7 & _).
+  destruct H1 as (A1 & _ & _ & _ & _ & A6 & A7 & _). destruct H2 as (B1 & _ & _ & _ & _ & B6 & B7 & _).
   unfold contents_diff_t.
-  rewrite (grid_contents_diff_gobs _ _ _ _ E B1 (grid_ok_prow _ (cur_ok _ O1))). cbn [bind].
+  rewrite (grid_contents_diff_gobs _ _ _ _ E B1 (grid_ok_prow _ (cur_ok _ O1))
+             (visible_rows_wide_full _ _ (cur_wf_obs _ W1) A1)). cbn [bind].
   rewrite A6, B6, A7, B7, eqb_reflx, t_attrs_diff_same. reflexivity.
 Qed.
 
@@ -362,11 +392,11 @@ Proof.
   rewrite !eqb_reflx, t_mouse_mode_same, t_mouse_enc_same. reflexivity.
 Qed.
 
-Theorem state_diff_obs s1 s2 o : screen_ok s1 -> obs s1 = Ok o -> obs s2 = Ok o ->
+Theorem state_diff_obs s1 s2 o : screen_ok s1 -> screen_wf s1 -> obs s1 = Ok o -> obs s2 = Ok o ->
   state_diff_t s1 s2 = Ok [].
 Proof.
-  intros O1 H1 H2. unfold state_diff_t.
-  rewrite (contents_diff_obs _ _ _ O1 H1 H2), (input_mode_diff_obs _ _ _ H1 H2). reflexivity.
+  intros O1 W1 H1 H2. unfold state_diff_t.
+  rewrite (contents_diff_obs _ _ _ O1 W1 H1 H2), (input_mode_diff_obs _ _ _ H1 H2). reflexivity.
 Qed.
 
 (* one empty token list per visible row; needs no invariant *)
@@ -378,13 +408,13 @@ Proof.
   unfold rows_diff_t. rewrite A1, B1. cbn [bind]. apply rows_diff_rows_self.
 Qed.
 
-Theorem C19_obsdiff s1 s2 o : screen_ok s1 -> screen_ok s2 -> obs s1 = Ok o -> obs s2 = Ok o ->
+Theorem C19_obsdiff s1 s2 o : screen_ok s1 -> screen_wf s1 -> screen_ok s2 -> obs s1 = Ok o -> obs s2 = Ok o ->
   contents_diff_t s1 s2 = Ok [] /\
   state_diff_t s1 s2 = Ok [] /\
   input_mode_diff_t s1 s2 = [] /\
   (forall start width, rows_diff_t s1 s2 start width = Ok (repeatN [] (grows (cur s1)))).
 Proof.
-  intros O1 O2 H1 H2. repeat split.
+  intros O1 W1 O2 H1 H2. repeat split.
   - eapply contents_diff_obs; eassumption.
   - eapply state_diff_obs; eassumption.
   - eapply input_mode_diff_obs; eassumption.
@@ -394,26 +424,26 @@ Proof.
 Qed.
 
 (* a screen against itself (or against its clone: a clone is the same value) *)
-Theorem C19_selfdiff s : screen_ok s ->
+Theorem C19_selfdiff s : screen_ok s -> screen_wf s ->
   contents_diff_t s s = Ok [] /\
   state_diff_t s s = Ok [] /\
   input_mode_diff_t s s = [] /\
   (forall start width, rows_diff_t s s start width = Ok (repeatN [] (grows (cur s)))).
 Proof.
-  intros O. destruct (obs_ok s O) as (o & E & _). exact (C19_obsdiff s s o O O E E).
+  intros O W. destruct (obs_ok s O) as (o & E & _). exact (C19_obsdiff s s o O W O E E).
 Qed.
 
 (* bytes: every diff serialises to the empty byte string *)
 Lemma map_ser_all_repeat n : map ser_all (repeatN [] n) = repeatN [] n.
 Proof. unfold repeatN. induction (N.to_nat n) as [|k IH]; cbn [repeat map]; [reflexivity|]. rewrite IH. reflexivity. Qed.
 
-Corollary C19_selfdiff_bytes s : screen_ok s ->
+Corollary C19_selfdiff_bytes s : screen_ok s -> screen_wf s ->
   res_map ser_all (contents_diff_t s s) = Ok [] /\
   res_map ser_all (state_diff_t s s) = Ok [] /\
   ser_all (input_mode_diff_t s s) = [] /\
   (forall start width, res_map (map ser_all) (rows_diff_t s s start width) = Ok (repeatN [] (grows (cur s)))).
 Proof.
-  intros O. destruct (C19_selfdiff s O) as (A & B & C & D). rewrite A, B, C. repeat split.
+  intros O W. destruct (C19_selfdiff s O W) as (A & B & C & D). rewrite A, B, C. repeat split.
   intros start width. rewrite D. cbn [res_map]. rewrite map_ser_all_repeat. reflexivity.
 Qed.
 
